@@ -1,4 +1,4 @@
-\* code: handle and writer registration are two steps -- must violate AcceptedVisible
+\* the code BEFORE the repair 81b03b7: handle and writer registration are two steps -- must violate AcceptedVisible
 CONSTANTS
   Leader = {1}
   MaxRow = 2
@@ -11,6 +11,7 @@ CONSTANTS
   RetryFailed = TRUE
   ClosedRejects = TRUE
   AtomicWrite = FALSE
+  RegisterAtGet = FALSE
   AtomicEvict = TRUE
   UniqueStamp = TRUE
   EvictChecksRef = TRUE
